@@ -87,7 +87,7 @@ def main():
             except queue.Empty: break
             r = results[m]
             sh("%s -apply %d /repo/%s %s/%s" % (MUTGEN, r["k"], r["file"], wt, r["file"]))
-            rc, out = sh("go build ./... && go build -tags verif ./...", cwd=wt, timeout=120)
+            rc, out = sh("go build ./... && go build -tags verif ./...", cwd=wt, timeout=400)
             if rc != 0:
                 r["status"] = "does-not-compile"
             else:
